@@ -18,6 +18,16 @@ func c11Key(prefix, name string) string {
 	return prefix + suf
 }
 
+// c11FreeKey: a two-letter canonical key whose letters are both symbolic
+// ([A-Z][a-z]); too short to collide with a protocol-reserved prefix, but it
+// may start with any letter - including the letters of "Trailer-".
+func c11FreeKey(name string) string {
+	k := nondetStringN(name, 2)
+	assume(k[0] >= 'A' && k[0] <= 'Z' && k[1] >= 'a' && k[1] <= 'z')
+	assume(k != "Te") // TE is a hop-by-hop field, not metadata
+	return k
+}
+
 // c11Val: printable ASCII without leading/trailing blanks (HTTP trims those).
 func c11Val(name string, n int) string {
 	v := nondetStringN(name, n)
@@ -50,7 +60,7 @@ type c11Meta struct {
 
 func c11Symbolic() c11Meta {
 	return c11Meta{
-		hk: c11Key("X-H", "hk"), tk: c11Key("X-T", "tk"),
+		hk: c11Key("X-H", "hk"), tk: c11FreeKey("tk"),
 		hv1: c11Val("hv1", 2), hv2: c11Val("hv2", 1), tv: c11Val("tv", 2),
 		bin:  nondetBytes("bin", 2),
 		reqK: c11Key("X-R", "rk"), reqV: c11Val("rv", 2),
